@@ -231,9 +231,11 @@ fn read_file(file: &[u8]) -> ReadOut {
 fn write_file(h: &Hdr, ops: &[Op], via_chunk: bool) -> (bool, String, Vec<u8>) {
     let mut cur = Cursor::new(Vec::new());
     let mut res = String::new();
-    let new = guard(|| {
+    let ok = {
+    let curref = &mut cur;
+    let new = guard(move || {
         Writer::new(
-            &mut cur,
+            curref,
             &h.nv,
             &h.mn,
             h.sha.map(Sha256),
@@ -244,7 +246,7 @@ fn write_file(h: &Hdr, ops: &[Op], via_chunk: bool) -> (bool, String, Vec<u8>) {
             &h.map,
         )
     });
-    let ok = match new {
+    match new {
         Ok(Ok(mut w)) => {
             for op in ops {
                 let r = guard(|| match op {
@@ -280,6 +282,7 @@ fn write_file(h: &Hdr, ops: &[Op], via_chunk: bool) -> (bool, String, Vec<u8>) {
             true
         }
         _ => false,
+    }
     };
     (ok, res, cur.into_inner())
 }
@@ -495,8 +498,8 @@ fn gen_small_payload(r: &mut Rng, bits: &[u32]) -> Vec<u8> {
         0 => vec![],
         1 => (0..r.below(8)).map(|_| r.byte()).collect(),
         // compressed sizes on both sides of 29/30 and 255/256
-        2 => { let t = *r.pick(&[28usize, 29, 30, 31]); payload_compressing_to(r, bits, t, r.below(4)) }
-        3 => { let t = *r.pick(&[254usize, 255, 256, 257]); payload_compressing_to(r, bits, t, r.below(4)) }
+        2 => { let t = *r.pick(&[28usize, 29, 30, 31]); let st = r.below(4); payload_compressing_to(r, bits, t, st) }
+        3 => { let t = *r.pick(&[254usize, 255, 256, 257]); let st = r.below(4); payload_compressing_to(r, bits, t, st) }
         4 => vec![0; r.below(300) as usize],
         5 => { let n = r.below(40) as usize; (0..n).map(|_| *r.pick(&[0u8, 0, 0, 1, 255, 0x40, 0x80])).collect() }
         6 => { let n = 1 + r.below(600) as usize; r.bytes(n) }
